@@ -2011,10 +2011,12 @@ static void get_user_data (interactive_t* ip, io_event_t* evt) {
         case PORT_ASCII:
           {
             char *nl, *str;
-            char *p = ip->text + ip->text_start;
+            char *p;
 
-            memcpy (p, buf, num_bytes);
-            ip->text_end = ip->text_start + num_bytes;
+            /* append after a partial line retained from the previous read */
+            memcpy (ip->text + ip->text_end, buf, num_bytes);
+            ip->text_end += num_bytes;
+            p = ip->text + ip->text_start;
             while ((nl = memchr (p, '\n', ip->text_end - ip->text_start)))
               {
                 ip->text_start = (nl + 1) - ip->text;
@@ -2041,6 +2043,15 @@ static void get_user_data (interactive_t* ip, io_event_t* evt) {
                     p = nl + 1;
                   }
               }
+            if (ip->text_start > 0)
+              {
+                /* keep the unfinished line at the start of the buffer */
+                memmove (ip->text, ip->text + ip->text_start, ip->text_end - ip->text_start);
+                ip->text_end -= ip->text_start;
+                ip->text_start = 0;
+              }
+            if (ip->text_end >= MAX_TEXT - 1)
+              ip->text_end = 0; /* a line longer than the buffer is discarded */
             break;
           }
 
